@@ -170,3 +170,23 @@ def features(atom_names, endian, align, reader=None, **extra) -> dict:
         f["has:" + k] = True
     f.update(extra)
     return f
+
+
+def guarded(res, prop_kind: str, names, endian, align, fn, seconds: float = 30.0) -> None:
+    """Run fn() under the per-case watchdog; a hang (or runaway memory use) of the library is a violation."""
+    from .runner import CaseTimeout, Violation, watchdog
+
+    try:
+        with watchdog(seconds):
+            fn()
+    except CaseTimeout:
+        res.violations.append(
+            Violation("hang", f"hang|align={align}|{cluster_tail(names)}", case_json(names, endian, align),
+                      f"{prop_kind}: case did not finish within {seconds}s (definition {names}, {endian}, align={align})",
+                      features(names, endian, align))
+        )
+    except MemoryError:
+        res.violations.append(
+            Violation("memory", f"memory|align={align}|{cluster_tail(names)}", case_json(names, endian, align),
+                      f"{prop_kind}: case exhausted the worker's memory limit (definition {names})", features(names, endian, align))
+        )
